@@ -32,6 +32,7 @@ func InitDiscardStats(opt Options) (*discardStats, error) {
 	fname := filepath.Join(opt.ValueDir, discardFname)
 
 	// 1MB file can store 65.536 discard entries. Each entry is 16 bytes.
+	y.VerifIO("open", fname)
 	mf, err := z.OpenMmapFile(fname, os.O_CREATE|os.O_RDWR, 1<<20)
 	lf := &discardStats{
 		MmapFile: mf,
@@ -97,6 +98,7 @@ func (lf *discardStats) Update(fidu uint32, discard int64) int64 {
 	lf.Lock()
 	defer lf.Unlock()
 
+	y.VerifIO("mmapwrite", lf.Fd.Name())
 	idx := sort.Search(lf.nextEmptySlot, func(slot int) bool {
 		return lf.get(slot*16) >= fid
 	})
